@@ -32,14 +32,14 @@ func (c *countingClient) Ping(ctx context.Context) error {
 func init() {
 	register(&funcEngine{name: "ka", par: 32,
 		gen: func(rng *rand.Rand, tier string, n int, emit func(string)) {
-			for _, s := range []string{"n", "c", "w", "e", "a n", "a a a c", "a a w", "a e", "a a a a a a n"} {
+			for _, s := range []string{"n", "c", "w", "e", "a n", "a a a c", "a a w", "a e", "a a a a a a n", "A n", "A A A c", "a A a A e"} {
 				emit(s)
 			}
 			for i := 0; i < n; i++ {
 				k := rng.Intn(7)
 				var toks []string
 				for j := 0; j < k; j++ {
-					toks = append(toks, "a")
+					toks = append(toks, []string{"a", "a", "A"}[rng.Intn(3)])
 				}
 				toks = append(toks, []string{"n", "c", "w", "e", "n", "c"}[rng.Intn(6)])
 				emit(strings.Join(toks, " "))
@@ -76,6 +76,11 @@ func init() {
 				switch f[i] {
 				case "a":
 					tr.feed(specPacket(0xd0, nil))
+				case "A":
+					// a very fast broker: the response has been read and processed by the client's
+					// reader goroutine before Write returns to the pinging goroutine
+					tr.feed(specPacket(0xd0, nil))
+					tr.waitDrained()
 				case "c":
 					cancel()
 				case "e":
